@@ -27,7 +27,7 @@ def _neg(i):
 
 
 def alphabet_A1(mods=LOCAL):
-    ops = []
+    ops = [{"op": "save"}]
     for x in mods:
         for y in mods:
             ops.append({"op": "connect", "f": x, "t": y})
@@ -119,13 +119,15 @@ def alphabet_A5():
 
 # ------------------------------------------------------------------ the system
 class Live:
-    __slots__ = ("p", "mods", "p2", "f")
+    __slots__ = ("p", "mods", "p2", "f", "saved")
 
 
 def requested_pairs(op):
     """All (from, to) pairs an op mentions (used for 'no other pair changes')."""
     out = set()
     for sub in op.get("equiv") or [op]:
+        if sub["op"] == "save":
+            continue
         if sub["op"] == "connect":
             F, T = sub["f"], sub["t"]
         elif sub["op"] == "rshift":
@@ -157,6 +159,7 @@ class LinkSystem:
         L.p2 = rv.Project()
         L.f = L.p2.new_module(rv.m.Amplifier)
         L.mods[FOREIGN] = L.f
+        L.saved = 0
         return L
 
     def _operand(self, L, o, wrap_list=False):
@@ -174,12 +177,15 @@ class LinkSystem:
 
         try:
             kind = op["op"]
+            L.saved = 1 if kind == "save" else 0
             if kind == "connect":
                 L.p.connect(self._operand(L, op["f"]), self._operand(L, op["t"]))
             elif kind == "rshift":
                 self._operand(L, op["l"], True) >> self._operand(L, op["r"])
             elif kind == "lshift":
                 self._operand(L, op["l"], True) << self._operand(L, op["r"])
+            elif kind == "save":
+                L.p.read()          # serialising the project between link operations must not disturb the tables
             elif kind == "chain":
                 seq = op["seq"]
                 cur = self._operand(L, seq[0], True)
@@ -197,15 +203,20 @@ class LinkSystem:
             for m in (L.mods[0], L.mods[1], L.mods[2], L.mods[3], L.f)
         )
 
-    canon = tables
+    def canon(self, L):
+        # the tables PLUS whether the last operation was a save (a save may leave hidden state behind, e.g. a
+        # cache or an in-place clean-up; merging "saved" and "not saved" states would hide what follows it)
+        return self.tables(L) + (L.saved,)
 
     def save(self, L):
+        self._saved_flag = L.saved
         return [
             (list(m.in_links), list(m.in_link_slots), list(m.out_links), list(m.out_link_slots))
             for m in (L.mods[0], L.mods[1], L.mods[2], L.mods[3], L.f)
         ]
 
     def restore(self, L, saved):
+        L.saved = self._saved_flag
         for m, s in zip((L.mods[0], L.mods[1], L.mods[2], L.mods[3], L.f), saved):
             m.in_links[:] = s[0]
             m.in_link_slots[:] = s[1]
@@ -225,6 +236,8 @@ class LinkSystem:
     def model_apply(self, m, op):
         m._before = set(m.edges)
         kind = op["op"]
+        if kind == "save":
+            return "ok"
         if kind == "connect":
             return m.connect(op["f"], op["t"])
         if kind == "rshift":
@@ -280,6 +293,8 @@ def op_pattern(op):
             return "[" + ",".join(shape(x) for x in o) + "]"
         return "F" if o == FOREIGN else "m"
     k = op["op"]
+    if k == "save":
+        return "save"
     if k == "connect":
         return f"connect({shape(op['f'])},{shape(op['t'])})"
     if k in ("rshift", "lshift"):
